@@ -45,6 +45,20 @@ def draw_knobs(rng, cfg):
     k["repeat_rate"] = rng.choice([0.0, 0.1, 0.25])
     k["fine_m2"] = rng.random() < 0.45
     k["ctor_storm"] = rng.random() < 0.25
+    if cfg.get("pressure"):
+        # eviction pressure: every cache (the nine LRUs and the three publicly sized ones) holds one or two
+        # entries while each thread keeps presenting fresh keys, so nearly every call is a miss that evicts
+        # somebody else's entry -- the window a cache implementation must keep atomic
+        k["lru"] = [[m, n, rng.choice([1, 1, 2])] for m, n in W.INTERNAL_LRUS]
+        k["configure"] = {key: rng.choice([1, 1, 2]) for key in ("idna_encode_size", "idna_decode_size", "encode_host_size")}
+        k["ctor_storm"] = rng.random() < 0.7
+        k["granularity"] = "ins"
+        k["policy"] = rng.choice(["random", "hot", "hot"])
+        k["p_switch"] = rng.choice([0.01, 0.05, 0.2])
+        k["p_hot"] = rng.choice([0.1, 0.3, 0.6])
+        k["atoms_hi"] = rng.choice([3, 4, 6])
+        k["ops_per_thread"] = rng.choice([2, 4, 6])
+        k["operator"] = rng.random() < 0.5
     return k
 
 
